@@ -9,56 +9,66 @@ VERIF = os.path.dirname(os.path.dirname(os.path.abspath(__file__)))
 PY = "/venv/bin/python -S -I"
 
 CLAIMED = {
-    "C01": ("partial: four structural necessary conditions of 'every generated tree is a derivation' (substitution guard, default-off "
-            "grammar-deviating generation, repetition-count provenance, repair parses under the target's symbol)",
-            "CFG dominance + def-use provenance + settings-table cross-check", "§3/C01"),
+    "C01": ("partial: structural necessary conditions of 'every generated tree is a derivation from the requested start symbol' - substitution guard "
+            "(path, same symbol, target not read-only), default-off grammar-deviating generation, repetition-count provenance, repair under the target's symbol, "
+            "nodes located by reference, repetition tags read for the same nodes they are written for, no parse/fuzz under the default start symbol",
+            "CFG dominance + def-use provenance + settings-table cross-check + writer/reader domain agreement + who-passes-what at call sites", "§3/C01, §9.2"),
     "C02": ("error/emission discipline behind 'emitted solutions satisfy every hard constraint': every evaluator yield lies behind the "
-            "acceptance test, raising evaluations record failures on all handler paths (evaluator and constraint level), every value the "
+            "acceptance test, raising evaluations record failures on all handler paths (evaluator and constraint level) and cannot shrink the divisor, every value the "
             "COMPLETE-mode pipeline yields originates from an evaluator yield, padding only under best_effort; in exact rational arithmetic the "
-            "threshold operand is a convex combination of the class means with positive weights (reaches 1 only if every class is fully satisfied)",
-            "CFG path queries (must-pass-through, handler-to-backedge), accumulator classification, emission-provenance fixpoint over generators", "§3/C02"),
+            "threshold operand is a convex combination of the class means with positive weights; a comparison that does not hold never scores 1.0 in float arithmetic",
+            "CFG path queries (must-pass-through, handler-to-backedge), accumulator classification, emission-provenance fixpoint over generators, "
+            "rational and closed-interval abstract interpretation", "§3/C02, §9.2"),
     "C03": ("decides the property's arithmetic clause for all (h, r) at once: under 'every per-constraint fitness is 1.0' the value compared "
-            "with the acceptance threshold is exactly 1.0 and the comparison accepts equality; a tree is marked as reported only together with its yield",
-            "abstract interpretation in an exactness domain {ONE, INT(linear form), ROUNDED} with loop and call summaries", "§3/C03"),
-    "C04": ("partial: API filter, helper-symbol containment, error discipline, visitor exhaustiveness, and scanner leaves = input slices with a "
-            "column advance that matches the consumed length",
-            "control dependence of yields, writer/reader prefix tables, who-may-call, sibling cross-check", "§3/C04"),
-    "C06": ("the state-identity argument of Earley termination: items admitted to a column have a finite, hash/eq-consistent identity, the "
-            "de-duplication cannot be bypassed, the column index strictly advances",
-            "field-set derivation from __hash__/__eq__ + annotation domains, who-may-write, CFG loop-variant query", "§3/C06"),
-    "C07": ("partial: operator tables, raising combination = failure, vacuous truth, lazy == eager, inversion duality, selector dispatch",
-            "three-way table agreement (lexer literals / converter / Comparison), accumulator obligations on CFG paths, sibling cross-checks", "§3/C07"),
+            "with the acceptance threshold is exactly 1.0 and the comparison accepts equality; a holding comparison scores exactly 1.0; a tree is marked as reported only together with its yield",
+            "abstract interpretation in an exactness domain {ONE, INT(linear form), ROUNDED} with loop and call summaries; interval interpretation of the scoring helper", "§3/C03, §9.2"),
+    "C04": ("partial: API filter, helper-symbol containment, error discipline, visitor exhaustiveness, scanner leaves = input slices with a "
+            "column advance that matches the consumed length, complete mode accepts only complete matches, the forest memo key covers mode/start/word, "
+            "helper-rule ids are unique across merged specs, byte scanners run at byte-aligned columns only",
+            "control dependence of yields, writer/reader prefix tables, who-may-call, sibling cross-check, key-construction tracing, chain-of-custody of the id prefix", "§3/C04, §9.2"),
+    "C06": ("the state-identity argument of Earley termination plus two progress clauses: items admitted to a column have a finite, hash/eq-consistent identity, the "
+            "de-duplication cannot be bypassed, the column index strictly advances, a completed scan must have consumed input (unconditional no-progress rejection), "
+            "the upward walk of construct_incomplete_tree takes the earliest waiting item",
+            "field-set derivation from __hash__/__eq__ + annotation domains, who-may-write, CFG loop-variant query, guard-conjunct check, first-match idiom recognition", "§3/C06, §9.2"),
+    "C07": ("partial: operator tables, raising combination = failure, vacuous truth, lazy == eager, inversion duality, selector dispatch, memo keys distinguish bindings, "
+            "constant-index grammar accessors only where the slot is fixed",
+            "three-way table agreement (lexer literals / converter / Comparison), accumulator obligations on CFG paths, sibling cross-checks, grammar-alternative analysis of ctx.X(k)", "§3/C07, §9.2"),
     "C08": ("'never silently altered or dropped': every parser rule that can reach the translator's default child-aggregator is transparent, "
-            "and every operator token maps to CPython's own operator class",
-            "dispatch-coverage analysis over the ANTLR grammar and the visitor classes; operator table vs ast._Unparser", "§3/C08"),
+            "every operator token maps to CPython's own operator class through the handler's own branch, literals are decoded by Python's evaluator, parameter kinds feed the right ast.arguments field, "
+            "ordinal accessors are slot-safe",
+            "dispatch-coverage analysis over the ANTLR grammar and the visitor classes; operator table vs ast._Unparser", "§3/C08, §9.2"),
     "C09": ("partial: codec roles never cross (so str/bytes/bits views agree and do not depend on request order), value payloads are never "
-            "mutated behind shared references, value() is an in-order left fold without caching",
-            "role-typed flow check over call sites, who-may-write, return-freshness, fold-shape check", "§3/C09"),
-    "C10": ("purity of read-only accessors and of operators w.r.t. their input trees, invalidation completeness for hashed fields, identity "
-            "fields, copy completeness",
-            "interprocedural ownership/effect analysis (regions, links, dispatch, save/restore brackets) + CFG post-dominance", "§3/C10"),
-    "C11": ("partial: memo keys cover every input of the miss path, are computed before scopes are mutated, hit paths return copies",
-            "memo-idiom recognition, def-use key slicing, CFG ordering", "§3/C11"),
+            "mutated behind shared references, value() is an in-order left fold without caching, the bit view has exactly eight characters per byte for every length",
+            "role-typed flow check over call sites, who-may-write, return-freshness, fold-shape check, length-domain evaluation of the bit rendering", "§3/C09, §9.2"),
+    "C10": ("purity of read-only accessors and of operators w.r.t. their input trees (every witness chain), invalidation completeness and writer discipline for memoised fields, identity "
+            "fields, copy completeness, positions looked up by reference",
+            "interprocedural ownership/effect analysis (regions, links, dispatch, save/restore brackets) + CFG post-dominance", "§3/C10, §9.2"),
+    "C11": ("partial: memo keys cover every input of the miss path and distinguish bindings, are computed before scopes are mutated, hit paths return copies, what a hit deep-copies is copyable "
+            "(type closure clear of spec globals), lists extended in place come from per-call builders, node-level memos handed out by reference are immutable",
+            "memo-idiom recognition, def-use key slicing, CFG ordering, field-type-graph reachability, return-freshness", "§3/C11, §9.2"),
     "C12": ("the cache protocol behind history-independent parsing: publish after completion, served trees share nothing with the memo, "
-            "hit path == miss path, per-parse state reset",
-            "CFG reachability incl. generator-abandonment edges, reaching definitions, effect summaries, partial evaluation on boolean parameters", "§3/C12"),
+            "hit path == miss path, per-parse state reset, the key covers every input of the producer (recognised through helper methods as well)",
+            "CFG reachability incl. generator-abandonment edges, reaching definitions, effect summaries, partial evaluation on boolean parameters, key-construction tracing", "§3/C12, §9.2"),
     "C14": ("partial: both front ends embed the same serialized automaton and token tables and agree with the .g4 sources; every lexer hook "
-            "exists on both sides",
-            "table extraction from generated .py (ast) and .cpp (tokenizer) + grammar reader", "§3/C14"),
+            "exists on both sides with the same state update; the hand-written layout algorithm (NEWLINE/INDENT/DEDENT decisions, indentation arithmetic) agrees between "
+            "FandangoLexerBase.cpp and FandangoLexerBase.py",
+            "table extraction from generated .py (ast) and .cpp (tokenizer) + grammar reader + a reader for the C++ subset of the lexer base class with a canonical form shared with Python's ast", "§3/C14, §9.2"),
     "C15": ("grouping and bounds survive printing: postfix operands print at symbol level for every class that can occupy the field, "
-            "printers read no re-bindable module state, literals are printed by repr / read by eval",
-            "abstract interpretation of format_as_spec over string shapes against the precedence read from FandangoParser.g4; purity closure", "§3/C15"),
-    "C16": ("partial: generated children are sealed on every path, a misfit raises, regeneration or source clearing on every replaced-source "
-            "path, operators pick only writable targets",
-            "CFG must-pass-through, guard conjunct check, provenance of candidate lists", "§3/C16"),
-    "C17": ("inventory of non-reproducible sources (time, uuid, id(), os.urandom, unordered iteration over identity-hashed elements) reachable "
-            "from the public API; each frozen with its reason, seed dominates first draw",
-            "call-graph reachability + taint to control decisions + class-table hash classification", "§3/C17"),
-    "C18": ("inventory of state that outlives an instance (module globals re-bound from functions, class-level containers, mutable defaults) "
+            "printers read no re-bindable module state, literals are printed by repr / read by eval, regex source is rewritten only escape-aware",
+            "abstract interpretation of format_as_spec over string shapes against the precedence read from FandangoParser.g4; purity closure; structure of substitution patterns (re._parser)", "§3/C15, §9.2"),
+    "C16": ("partial: generator output is sealed at every Grammar.generate site before it is attached or returned, a misfit raises, regeneration or source clearing on every replaced-source "
+            "path, operators pick only writable targets, the substitution guard protects the replaced node, the read-only mark is removed only from fresh trees, parsed text is not installed "
+            "into generator symbols (known finding)",
+            "CFG must-pass-through, guard conjunct check, provenance of candidate lists, freshness of unsealed receivers", "§3/C16, §9.2"),
+    "C17": ("inventory of non-reproducible sources (time, uuid, id(), os.urandom, unordered iteration over elements whose hash depends on identity - directly or through a hashed attribute) reachable "
+            "from the public API; each frozen with its reason, seed dominates first draw, the seed is tested for presence and never for truth on its way from the command line",
+            "call-graph reachability + taint to control decisions + class-table hash classification + guard-shape check", "§3/C17, §9.2"),
+    "C18": ("inventory of state that outlives an instance (module globals re-bound from functions, class-level containers, mutable defaults, default arguments that are objects with written fields) "
             "with writer and reader both reachable from the public API",
-            "who-writes/who-reads over the call graph", "§3/C18"),
+            "who-writes/who-reads over the call graph", "§3/C18, §9.2"),
     "C20": ("partial: lock discipline on the receive buffer, thread-side effects append-only, atomic in-order queuing, acceptance discipline "
-            "of _generate_io", "AST region check + call-graph reachability from thread entries + CFG path queries", "§3/C20"),
+            "of _generate_io, the recorded history is sealed before a packet is mounted on it, the buffer is trimmed to the accepted parse's own fragment index",
+            "AST region check + call-graph reachability from thread entries + CFG path queries + def-use provenance", "§3/C20, §9.2"),
 }
 
 NOT_APPLICABLE = {
